@@ -341,6 +341,15 @@ def build(case):
     )
     if case.get("tree", False) and case.get("point_estimates"):
         kw["point_estimates"] = tuple(case["point_estimates"])
+    # documented input forms of `position_or_samples`: a plain position (default), a jft.Samples
+    # without samples/keys, a jft.Samples carrying samples and keys
+    form = case.get("start_form", "position")
+    if form == "samples":
+        pos0 = jft.Samples(pos=pos0, samples=None, keys=None)
+    elif form == "samples_keys":
+        nsm = 2 * max(1, int(nsamp[0] if isinstance(nsamp, list) else nsamp))
+        smp = jax.tree_util.tree_map(lambda x: jnp.stack([0.05 * (j + 1) * jnp.ones_like(x) * (-1) ** j for j in range(nsm)]), pos0)
+        pos0 = jft.Samples(pos=pos0, samples=smp, keys=jax.random.split(jax.random.PRNGKey(int(case["key"]) + 5), nsm // 2))
     return lh, pos0, kw
 
 
